@@ -185,7 +185,9 @@ private:
         u16 z = 0;
 
         u32 current_src = 0, current_dst = 0;
-        u16 counter0 = 0, counter1 = 0, counter2 = 0;
+        // wider than the 16-bit size registers: in double word mode counter0 advances by 2 and has to be able to
+        // pass SIZE0 = 0xFFFF instead of wrapping around below it
+        u32 counter0 = 0, counter1 = 0, counter2 = 0;
         u16 running = 0;
         u16 ahbm_channel = 0;
 
